@@ -1,11 +1,109 @@
 import TdVerif.Sexp
+import TdVerif.Model.C02Tensor
+import TdVerif.Model.C02Td
 
 namespace TdVerif.Drive
-open TdVerif Sexp
+open TdVerif Sexp TdVerif.C02
+
+namespace C02D
+
+def errSexp (e : Err) : Sexp := tagged "err" [.atom e.toString]
+
+def tensorSexp (t : T Nat) : Sexp := tagged "leaf" [ofNats t.shape, ofNats t.toList]
+
+def namesSexp (names : Names) (n : Nat) : Sexp :=
+  .list ((namesList names n).map fun | none => .atom "none" | some s => .atom s)
+
+partial def treeSexp : TD Nat → Sexp
+  | .leaf t => tensorSexp t
+  | .node bs names es =>
+    tagged "node" ([ofNats bs, namesSexp names bs.length] ++ es.map fun (k, e) => .list [.atom k, treeSexp e])
+
+def names? : Sexp → Option Names
+  | .atom "none" => some none
+  | .list l => (l.mapM fun (x : Sexp) => match x with
+      | Sexp.atom "none" => some (none : Option String)
+      | Sexp.atom s => some (some s)
+      | _ => none).map some
+  | _ => none
+
+partial def tree? : Sexp → Option (TD Nat)
+  | .list [.atom "leaf", .list sh] => do let s ← nats? sh; pure (.leaf (arange s))
+  | .list (.atom "node" :: .list bs :: nm :: es) => do
+    let bs ← nats? bs
+    let nm ← names? nm
+    let es ← es.mapM fun (x : Sexp) => match x with
+      | Sexp.list [Sexp.atom k, e] => do let e ← tree? e; pure (k, e)
+      | _ => none
+    pure (.node bs nm es)
+  | _ => none
+
+def op? : Sexp → Option (Op ⊕ MOp)
+  | .list [.atom "permute", .list ds] => do pure (.inl (.permute (← ints? ds)))
+  | .list [.atom "transpose", a, b] => do pure (.inl (.transpose (← asInt? a) (← asInt? b)))
+  | .list [.atom "squeeze", d] => do pure (.inl (.squeeze (← asOptInt? d)))
+  | .list [.atom "unsqueeze", d] => do pure (.inl (.unsqueeze (← asInt? d)))
+  | .list [.atom "flatten", a, b] => do pure (.inl (.flatten (← asInt? a) (← asInt? b)))
+  | .list [.atom "unflatten", d, .list s] => do pure (.inl (.unflatten (← asInt? d) (← ints? s)))
+  | .list [.atom "view", .list s] => do pure (.inl (.view (← ints? s)))
+  | .list [.atom "reshape", .list s] => do pure (.inl (.reshape (← ints? s)))
+  | .list [.atom "expand", .list s] => do pure (.inl (.expand (← ints? s)))
+  | .list [.atom "unbind", d] => do pure (.inr (.unbind (← asInt? d)))
+  | .list [.atom "split", k, d] => do pure (.inr (.split (← asInt? k) (← asInt? d)))
+  | .list [.atom "splitlist", .list s, d] => do pure (.inr (.splitList (← ints? s) (← asInt? d)))
+  | .list [.atom "chunk", k, d] => do pure (.inr (.chunk (← asInt? k) (← asInt? d)))
+  | _ => none
+
+/-- the model of the tensordict op -/
+def runTd (op : Op ⊕ MOp) (td : TD Nat) : Sexp :=
+  match op, td with
+  | .inl op, .node bs names es =>
+    match opMeta op bs names with
+    | .error e => errSexp e
+    | .ok none => .list [.atom "self"]
+    | .ok (some _) =>
+      match tdNode op bs names es with
+      | .error e => errSexp e
+      | .ok r => tagged "ok" [treeSexp r]
+  | .inr op, td =>
+    match tdMOp op td with
+    | .error e => errSexp e
+    | .ok rs => tagged "oks" (rs.map treeSexp)
+  | _, _ => errSexp .type
+
+/-- the torch spec applied to a plain provenance tensor -/
+def runTorch (op : Op ⊕ MOp) (t : T Nat) : Sexp :=
+  let one (r : Except Err (T Nat)) : Sexp :=
+    match r with | .error e => errSexp e | .ok r => tagged "ok" [tensorSexp r]
+  let many (r : Except Err (List (T Nat))) : Sexp :=
+    match r with | .error e => errSexp e | .ok rs => tagged "oks" (rs.map tensorSexp)
+  match op with
+  | .inl (.permute ds) => one (Torch.permute ds t)
+  | .inl (.transpose a b) => one (Torch.transpose a b t)
+  | .inl (.squeeze none) => one (.ok t.squeezeAll)
+  | .inl (.squeeze (some d)) => one (Torch.squeeze d t)
+  | .inl (.unsqueeze d) => one (Torch.unsqueeze d t)
+  | .inl (.flatten a b) => one (Torch.flatten a b t)
+  | .inl (.unflatten d s) => one (Torch.unflatten d s t)
+  | .inl (.view s) => one (Torch.reshape s t)
+  | .inl (.reshape s) => one (Torch.reshape s t)
+  | .inl (.expand s) => one (Torch.expand s t)
+  | .inr (.unbind d) => many (Torch.unbind d t)
+  | .inr (.split k d) => many (Torch.split k d t)
+  | .inr (.splitList s d) => many (Torch.splitList s d t)
+  | .inr (.chunk k d) => many (Torch.chunk k d t)
+
+end C02D
 
 /-- line-protocol handler for C02: commands are named `c02.<something>` -/
 def handleC02 (cmd : String) (args : List Sexp) : Option Sexp :=
   match cmd, args with
+  | "c02.td", [op, tree] => do
+      let op ← C02D.op? op; let td ← C02D.tree? tree
+      pure (C02D.runTd op td)
+  | "c02.torch", [op, .list sh] => do
+      let op ← C02D.op? op; let sh ← nats? sh
+      pure (C02D.runTorch op (arange sh))
   | _, _ => none
 
 end TdVerif.Drive
